@@ -60,10 +60,16 @@ func SetParseErrorLanguage(lang int) {
 	parseErrorLanguage = lang
 }
 
-// formatFriendlyError 生成友好的错误消息
+// formatFriendlyError 生成友好的错误消息(使用包级语言设置)
 func formatFriendlyError(pos position, input []byte, expected []string) error {
+	return formatFriendlyErrorLang(pos, input, expected, parseErrorLanguage)
+}
+
+// formatFriendlyErrorLang 生成友好的错误消息。语言由调用方给出: Context.Parse 传入该 Context 自己配置的语言，
+// 不再经过包级变量(多个 VM 并发解析时会互相覆盖，还是数据竞争)
+func formatFriendlyErrorLang(pos position, input []byte, expected []string, lang int) error {
 	if len(input) == 0 {
-		return fmtErr(pos, input, errMsgs["empty"], 0)
+		return fmtErr(pos, input, errMsgs["empty"], 0, lang)
 	}
 
 	var char rune
@@ -115,15 +121,15 @@ func formatFriendlyError(pos position, input []byte, expected []string) error {
 		msg = errMsgs["syntax"]
 	}
 
-	return fmtErr(pos, input, msg, fmtChar)
+	return fmtErr(pos, input, msg, fmtChar, lang)
 }
 
 // fmtErr 格式化错误输出
-func fmtErr(pos position, input []byte, msg bilingualMsg, char rune) error {
+func fmtErr(pos position, input []byte, msg bilingualMsg, char rune, lang int) error {
 	var sb strings.Builder
 
 	// 标题
-	switch parseErrorLanguage {
+	switch lang {
 	case ParseErrorLanguageChinese:
 		sb.WriteString("语法错误\n")
 	case ParseErrorLanguageEnglish:
@@ -156,7 +162,7 @@ func fmtErr(pos position, input []byte, msg bilingualMsg, char rune) error {
 	}
 
 	// 位置和消息
-	switch parseErrorLanguage {
+	switch lang {
 	case ParseErrorLanguageChinese:
 		sb.WriteString(fmt.Sprintf("  位置 %d:%d - %s", pos.line, pos.col, cn))
 	case ParseErrorLanguageEnglish:
